@@ -187,14 +187,31 @@ class ASTCodeGenerator(object):
 
     # ClassDef(identifier name, expr* bases, stmt* body)
     def visit_ClassDef(self, node):
+        for decorator in getattr(node, 'decorator_list', ()):
+            self._new_line()
+            self._write('@')
+            self.visit(decorator)
         self._new_line()
         self._write('class ' + node.name)
-        if node.bases:
+        keywords = getattr(node, 'keywords', None) or []
+        if node.bases or keywords:
             self._write('(')
-            self.visit(node.bases[0])
-            for base in node.bases[1:]:
-                self._write(', ')
+            first = True
+            for base in node.bases:
+                if not first:
+                    self._write(', ')
+                first = False
                 self.visit(base)
+            for keyword in keywords:
+                if not first:
+                    self._write(', ')
+                first = False
+                if not keyword.arg:
+                    self._write('**')
+                else:
+                    self._write(keyword.arg)
+                    self._write('=')
+                self.visit(keyword.value)
             self._write(')')
         self._write(':')
         self._change_indent(1)
